@@ -236,6 +236,26 @@ theorem move_spec {s : LSpace} (hi : LInv s) (a : Aid) (p : P2) :
         subst hq'
         exact ⟨h1, h2, map_upd_set _ _ _ _ _ _ hi.nodup hj h3⟩
 
+theorem enumDict_get_none (ks : List Aid) (a : Aid) (h : a ∉ ks) : (enumDict ks 0).get? a = none := by
+  rcases enumDict_get ks 0 a with ⟨_, h2⟩ | ⟨j, h1, _⟩
+  · exact h2
+  · exact absurd (List.mem_of_getElem? h1) h
+
+/-- `move_agent` of an agent that is not in the space: nothing of the space is touched, the agent object's
+    `pos` is written, and the call raises `KeyError` exactly when the position cache exists -/
+theorem move_foreign {s : LSpace} (hi : LInv s) (a : Aid) (p : P2) (ha : a ∉ s.agents) :
+    (∀ e, torusAdj s.cfg p = .error e → move s a p = (s, .error e)) ∧
+    (∀ p', torusAdj s.cfg p = .ok p' →
+      move s a p = ({ s with pos := upd s.pos a (some p') },
+        if s.pts.isSome then .error .key else .ok ())) := by
+  refine ⟨fun e he => by simp [move, he], fun p' hp => ?_⟩
+  cases hpts : s.pts with
+  | none => simp [move, hp, hpts]
+  | some pts =>
+    obtain ⟨_, h2, _⟩ := hi.cache pts hpts
+    have hg : s.a2i.get? a = none := by rw [h2]; exact enumDict_get_none _ _ ha
+    simp [move, hp, hpts, hg]
+
 /-! ### the cache and `get_neighbors` -/
 
 theorem collect_map_of_all_some {α β : Type} (l : List α) (f : α → Option β)
@@ -493,5 +513,30 @@ theorem lspec_inside (c : LCfg) (hw : c.WF) (ops : List LOp) :
         simp only [upd, hba, if_false]; exact h b hb1
       · exact h
     | nbrs p r incl => exact h
+
+/-- two points of the space `[min, max)` are at distance 0 iff they are the same point (torus or not) -/
+theorem ldist2_eq_zero_iff (c : LCfg) (hw : c.WF) (p q : P2) (hp : oob c p = false) (hq : oob c q = false) :
+    ldist2 c p q = 0 ↔ p = q := by
+  simp only [oob, Bool.or_eq_false_iff, decide_eq_false_iff_not] at hp hq
+  have hx := axisDist_eq_zero_iff c.torus c.width p.1 q.1 (by have := hw.1; unfold LCfg.width; omega)
+  have hy := axisDist_eq_zero_iff c.torus c.height p.2 q.2 (by have := hw.2; unfold LCfg.height; omega)
+  have nx := sq_nonneg (axisDist c.torus c.width p.1 q.1)
+  have ny := sq_nonneg (axisDist c.torus c.height p.2 q.2)
+  unfold ldist2
+  constructor
+  · intro h
+    have h1 : axisDist c.torus c.width p.1 q.1 = 0 := sq_eq_zero (by omega)
+    have h2 : axisDist c.torus c.height p.2 q.2 = 0 := sq_eq_zero (by omega)
+    have e1 : p.1 = q.1 := by
+      rcases hx.mp h1 with e | ⟨_, e⟩
+      · exact e
+      · unfold iabs LCfg.width at e; split at e <;> omega
+    have e2 : p.2 = q.2 := by
+      rcases hy.mp h2 with e | ⟨_, e⟩
+      · exact e
+      · unfold iabs LCfg.height at e; split at e <;> omega
+    exact Prod.ext e1 e2
+  · rintro rfl
+    rw [hx.mpr (Or.inl rfl), hy.mpr (Or.inl rfl)]; rfl
 
 end Mesa.Cont
